@@ -1,9 +1,13 @@
 import IodineModel.Hex
 import IodineModel.Common
+import IodineModel.Server.Handle
+import IodineModel.Client.Tunnel
 /-
 Driver ops for common.c:
   topdom <w> <hex>     → r=0 | r=1        (w = 0/1 is allow_wildcard)
   qdl <hexq> <hext>    → r=<n> | r=-1
+  rseq <our> <got>     → r=0 | r=1        recent_seqno(our, got) (common.c); the server model's and the client model's copy must
+                                           agree, otherwise `r=split`
 -/
 namespace Iodine.Drv.Common
 open Iodine Iodine.Hex
@@ -20,6 +24,13 @@ def handle (toks : List String) : Option String :=
       match Iodine.Common.queryDatalen q t with
       | some n => some s!"r={n}"
       | none => some "r=-1"
+    | _, _ => some "bad-op"
+  | ["rseq", a, b] =>
+    match a.toInt?, b.toInt? with
+    | some our, some got =>
+      let s := Iodine.Server.recentSeqno our got
+      let c := Iodine.Client.recentSeqno our got
+      if s != c then some "r=split" else some (if s then "r=1" else "r=0")
     | _, _ => some "bad-op"
   | _ => none
 
